@@ -15,6 +15,12 @@ ALLOWED_THIRD_PARTY = (
     "crossbeam::crossbeam_channel::bounded",
     "crossbeam::crossbeam_channel::Sender::",
     "crossbeam::crossbeam_channel::Receiver::",
+    "crossbeam::crossbeam_channel::SendError",
+    "crossbeam::crossbeam_channel::TrySendError",
+    "crossbeam::crossbeam_channel::SendTimeoutError",
+    "crossbeam::crossbeam_channel::RecvError",
+    "crossbeam::crossbeam_channel::TryRecvError",
+    "crossbeam::crossbeam_channel::RecvTimeoutError",
     "rusty_pool::Builder::",
     "rusty_pool::ThreadPool::execute",
     "rusty_pool::ThreadPool::shutdown_join",
@@ -139,6 +145,23 @@ def in3_handles_stay_home(ctx, rep):
         args = [bp.arg_term(news[0].bb, i) for i in range(len(news[0].term["args"]))]
         tx = ("field", ("call", (m.path, ctor[0].bb), ctor[0].ck), 0)
         rep.check(tx in args, R, "own-channel:%s" % fam, news[0].where, "%s gets the sender of the channel created in this call" % fam, "%s::new(%s)" % (fam, [term_str(a) for a in args]))
+    # every lock of a subscriber list through a captured handle resolves to the creating store's
+    # own list
+    from mirq.locks import LOCK_CALLS
+    from rules.subs import _resolve_upvars
+    nl = 0
+    for b in ctx.prog.bodies:
+        if not b.is_closure():
+            continue
+        bp = ctx.prog.bp(b)
+        for s in ctx.prog.sites(b):
+            if s.ck in LOCK_CALLS and "Subscriber<" in ((s.fn.get("args") or [""])[0]):
+                t = bp.arg_term(s.bb, 0)
+                rb, rt = _resolve_upvars(ctx, b, t)
+                nl += 1
+                good = rt == ("field", ("param", 1), A.f_subscribers) and (rb.j.get("impl_adt") or "").endswith("StoreImpl")
+                rep.check(good, R, "handle-operates-on-own-list:%s" % short(b.path), s.where, "the captured list is a clone of the creating store's `%s`" % A.f_subscribers, "the captured list is %s (created in %s)" % (term_str(rt), short(rb.path)))
+    rep.floor(R, "subscription handles locking a subscriber list", nl, 1)
     # the store's name is only formatted / cloned
     n = 0
     for b in ctx.prog.bodies:
